@@ -87,9 +87,12 @@ def run(d, k, repo):
     env["PYTHONPATH"] = repo
     env.pop("PYTHONHASHSEED", None)
     p = subprocess.run([sys.executable, os.path.join(d, "runner.py"), d, str(k)], capture_output=True, text=True, env=env, cwd=d, timeout=300)
-    if p.returncode != 0:
-        return {"__crash__": p.stderr[-400:]}
-    return json.loads(p.stdout.strip().split("\n")[-1])
+    lines = [l for l in p.stdout.strip().split("\n") if l.startswith("{")]
+    if lines:
+        return json.loads(lines[-1])
+    if "Traceback" not in p.stderr:
+        raise RuntimeError("the runner process died without a Python error: " + p.stderr[-300:])
+    return {"__crash__": p.stderr[-400:]}
 
 
 def main():
